@@ -60,6 +60,9 @@ pub enum ObsOp {
     NextRefNow { sub: u8, hold: bool },
     Poll { sub: u8, via: Via },
     PollAll,
+    /// poll every subscriber (round robin) until 8 * (n + 1) polls were made: dozens of waker
+    /// registrations between two updates
+    PollBurst(u8),
     DropSub(u8),
     Read { owner: u8, hold: bool },
     WriteLock { owner: u8 },
@@ -222,9 +225,11 @@ impl<F: Flavor> W<F> {
         self.rep.checks += 1;
         if cond {
             Ok(())
-        } else if self.prop == C19 && !props.contains(&C19) {
+        } else if (self.prop == C19 && !props.contains(&C19)) || (self.prop == C20 && !props.contains(&C20)) {
             // the count oracle compares the library with the harness's own list of live handles
-            // and does not depend on the value/notification model: keep going
+            // and does not depend on the value/notification model: keep going. Likewise the
+            // lifecycle oracle (C20) only counts instances: a wrong count or value elsewhere must
+            // not hide a leak that shows at the end of the same history
             self.ignored_other += 1;
             Ok(())
         } else {
@@ -812,6 +817,23 @@ impl<F: Flavor> W<F> {
                 }
                 Ok(())
             }
+            ObsOp::PollBurst(n) => {
+                if wheld {
+                    return Ok(());
+                }
+                let subs: Vec<usize> = self.live_subs().into_iter().filter(|si| !self.sub_has_guard(*si)).collect();
+                if subs.is_empty() {
+                    return Ok(());
+                }
+                let total = 8 * (n as usize + 1);
+                for k in 0..total {
+                    self.poll_sub(subs[k % subs.len()], Via::Stream)?;
+                }
+                if total >= 33 {
+                    self.rep.classes.push("more_than_32_polls_between_two_updates");
+                }
+                Ok(())
+            }
             ObsOp::DropSub(sub) => {
                 let Some(si) = pick(sub, &self.live_subs()) else { return Ok(()) };
                 if self.sub_has_guard(si) {
@@ -1150,6 +1172,7 @@ pub fn op(g: &ObsGen) -> BoxedStrategy<ObsOp> {
         prop_oneof![
             4 => (ix(), prop_oneof![Just(Via::Stream), Just(Via::Next), Just(Via::NextRef)]).prop_map(|(sub, via)| ObsOp::Poll { sub, via }),
             1 => Just(ObsOp::PollAll),
+            1 => (0u8..6).prop_map(ObsOp::PollBurst),
         ]
         .boxed(),
     ));
